@@ -540,7 +540,15 @@ static void hist_run (long item)
 			} else STAT ("prefix_violation_skipped");
 			stop = 1; break;
 		}
-		if (o_binv && is_solve (seq[i].op) && S.last && !S.last->rval && S.last->status == QS_LP_OPTIMAL && S.M->n + S.M->m <= 30) c13_check_basis (S.p, S.M, S.desc.s);
+		if (o_binv && is_solve (seq[i].op) && S.last && !S.last->rval && S.last->status == QS_LP_OPTIMAL && S.M->n + S.M->m <= 30) {
+			c13_check_basis (S.p, S.M, S.desc.s);
+			/* the queries must not disturb what the solve left: same status and value afterwards */
+			mpq_t v; mpq_init (v); int st = -1;
+			int r1 = mpq_QSget_status (S.p, &st), r2 = mpq_QSget_objval (S.p, &v);
+			if (r1 || r2 || st != QS_LP_OPTIMAL || !mpq_equal (v, S.last->objval))
+				viol ("C13", "basis-queries-disturb-solution", "after QSget_basis_order / QSget_binv_row / QSget_tableau_row: get_status rval=%d status=%s, get_objval rval=%d, value %s the solve's [history: %s]", r1, status_name (st), r2, (!r2 && mpq_equal (v, S.last->objval)) ? "equals" : "differs from", S.desc.s);
+			mpq_clear (v);
+		}
 		if (o_verd) c12_check_current_basis (S.p, S.M, S.desc.s);
 	}
 	if (!stop) {
